@@ -22,6 +22,7 @@ import SSEPyVerif.Proofs.Schemes.CT14
 import SSEPyVerif.Proofs.Schemes.SSE1
 import SSEPyVerif.Proofs.Schemes.Pi2Lev
 import SSEPyVerif.Proofs.Schemes.DP17
+import SSEPyVerif.Proofs.Schemes.DP17Exact
 import SSEPyVerif.Proofs.Schemes.ChainComplete
 import SSEPyVerif.Proofs.Schemes.CT14Complete
 import SSEPyVerif.Proofs.Schemes.PiPtrComplete
@@ -265,7 +266,8 @@ theorem SSE2.search_stored_valid (cfg : SSE2Cfg) (lv : Leaves) (hl : LeafLaws lv
     nothing else.  Both need that trial decryption of a FOREIGN bucket entry (another keyword's, or a random filler) under
     `F_k3(w)` does not end in `0^λ`, and that a probe beyond the last chunk does not hit a random filler of the hash table —
     facts about AES / HMAC outputs that hold with overwhelming probability but do not follow from the leaf laws.  The
-    correspondence and the direct oracle compare the whole result on every run. -/
+    correspondence and the direct oracle compare the whole result on every run.  (`DP17.search_stored` below proves (a)
+    outright and (b) under exactly that fact, stated as a hypothesis about this run's probes.) -/
 theorem DP17.search_stored_partial (raw : RawCfg) (cfg : DP17Cfg) (hcfg : DP17.cfgBuild raw = .ok cfg) (lv : Leaves)
     (hl : LeafLaws lv) (k1 k2 k3 : Bytes) (db : DB) (t t' : Tape) (edb : DP17EDB)
     (hs : DP17.setup cfg lv [k1, k2, k3] db t = .ok (edb, t')) (hkeys : (db.map (·.1)).Nodup)
@@ -276,6 +278,46 @@ theorem DP17.search_stored_partial (raw : RawCfg) (cfg : DP17Cfg) (hcfg : DP17.c
     (w : Bytes) (ids : List Bytes) (hm : (w, ids) ∈ db) (tk : List Bytes) (htk : DP17.token cfg lv [k1, k2, k3] w = .ok tk)
     (res : List Bytes) (hres : DP17.search cfg lv edb tk = .ok res) : ∀ id ∈ ids, id ∈ res :=
   DP17.search_present cfg lv raw hcfg hl k1 k2 k3 db t t' edb hs hkeys hidl hinj hperm hfresh w ids hm tk htk res hres
+
+/-- DP17, the FULL statement: the search for a stored keyword RETURNS — no KeyError from `A_dict[i]`, no IndexError from
+    `A_dict[i][offset]`, no error from the mask XOR or from cutting the bucket: every chunk's hash-table entry is there,
+    decodes to a level the index has and a bucket inside that level's array, and the bucket is a whole number of cells — and
+    its result is, as a set, exactly the keyword's list.  On top of the hypotheses of `search_stored_partial` two facts
+    about this run, both evaluated by the driver on every recorded case (`DP17.hypsB`):
+    `ProbesClean` — whatever a probe under this keyword's token yields belongs to the keyword, i.e. trial decryption of a
+    foreign or dummy cell under `F_k3(w)` does not end in `0^λ` (an AES fact, outside the leaf laws: this is the one place
+    where "nothing extra" is assumed rather than derived); and the probes `nChunks < count ≤ L` miss the hash table. -/
+theorem DP17.search_stored (raw : RawCfg) (cfg : DP17Cfg) (hcfg : DP17.cfgBuild raw = .ok cfg) (lv : Leaves)
+    (hl : LeafLaws lv) (k1 k2 k3 : Bytes) (db : DB) (t t' : Tape) (edb : DP17EDB)
+    (hs : DP17.setup cfg lv [k1, k2, k3] db t = .ok (edb, t')) (hkeys : (db.map (·.1)).Nodup)
+    (hidl : ∀ p ∈ db, ∀ id ∈ p.2, (id.length : Int) = cfg.idSize)
+    (hinj : ∀ levels, DP17.levelsOf cfg db.total = .ok levels → DP17.KeyInj cfg lv k1 levels db) (hperm : DP17.PermsGood t)
+    (hfresh : ∀ levels, DP17.levelsOf cfg db.total = .ok levels → ∀ b, Draw.bytes b ∈ t → ∀ w ids c, (w, ids) ∈ db → 1 ≤ c →
+      c ≤ DP17.nChunks cfg levels ids → DP17.htKey cfg lv k1 w c ≠ .ok b)
+    (w : Bytes) (ids : List Bytes) (hm : (w, ids) ∈ db) (tag vtag etag : Bytes)
+    (htk : DP17.token cfg lv [k1, k2, k3] w = .ok [tag, vtag, etag])
+    (hclean : DP17.ProbesClean cfg lv edb tag vtag etag ids)
+    (hbeyond : ∀ levels, DP17.levelsOf cfg db.total = .ok levels → ∀ c, DP17.nChunks cfg levels ids < c → c ≤ cfg.L.toNat →
+      ∃ key, DP17.hashH cfg lv (tag ++ natToBytesMin c) = .ok key ∧ edb.HT.get key = none) :
+    ∃ res, DP17.search cfg lv edb [tag, vtag, etag] = .ok res ∧ ∀ id, id ∈ res ↔ id ∈ ids :=
+  DP17.search_exact cfg lv raw hcfg hl k1 k2 k3 db t t' edb hs hkeys hidl hinj hperm hfresh w ids hm tag vtag etag htk
+    hclean hbeyond
+
+/-- without the two run-specific facts the probes of the stored chunks still all return (this part has no cryptographic
+    hypothesis beyond key distinctness): the number of chunks is at most `L` and each probe finds its bucket -/
+theorem DP17.probes_of_stored_chunks_return (raw : RawCfg) (cfg : DP17Cfg) (hcfg : DP17.cfgBuild raw = .ok cfg) (lv : Leaves)
+    (hl : LeafLaws lv) (k1 k2 k3 : Bytes) (db : DB) (t t' : Tape) (edb : DP17EDB)
+    (hs : DP17.setup cfg lv [k1, k2, k3] db t = .ok (edb, t')) (hkeys : (db.map (·.1)).Nodup)
+    (hidl : ∀ p ∈ db, ∀ id ∈ p.2, (id.length : Int) = cfg.idSize)
+    (hinj : ∀ levels, DP17.levelsOf cfg db.total = .ok levels → DP17.KeyInj cfg lv k1 levels db) (hperm : DP17.PermsGood t)
+    (hfresh : ∀ levels, DP17.levelsOf cfg db.total = .ok levels → ∀ b, Draw.bytes b ∈ t → ∀ w ids c, (w, ids) ∈ db → 1 ≤ c →
+      c ≤ DP17.nChunks cfg levels ids → DP17.htKey cfg lv k1 w c ≠ .ok b)
+    (w : Bytes) (ids : List Bytes) (hm : (w, ids) ∈ db) (tag vtag etag : Bytes)
+    (htk : DP17.token cfg lv [k1, k2, k3] w = .ok [tag, vtag, etag]) :
+    ∃ levels, DP17.levelsOf cfg db.total = .ok levels ∧ DP17.nChunks cfg levels ids ≤ cfg.L.toNat ∧
+      ∀ c, 1 ≤ c → c ≤ DP17.nChunks cfg levels ids → ∃ key here, DP17.hashH cfg lv (tag ++ natToBytesMin c) = .ok key ∧
+        DP17.searchOne cfg lv edb vtag etag c key = .ok here :=
+  DP17.probes_return cfg lv raw hcfg hl k1 k2 k3 db t t' edb hs hkeys hidl hinj hperm hfresh w ids hm tag vtag etag htk
 
 /-- a PiBas configuration with `prf_f_output_length = param_lambda` can run -/
 theorem PiBas.runnable (raw : RawCfg) (cfg : ChainCfg) (hcfg : PiBas.cfgBuild raw = .ok cfg)
